@@ -19,8 +19,12 @@ NEWLINE_FORMATS = {
 
 
 #: A mapping of encodings to possible BOM markers.
+#:
+#: This is keyed off by the normalized codec names (as returned by
+#: :py:func:`codecs.lookup`).
 BOMS = {
     'utf-8': (codecs.BOM_UTF8,),
+    'utf-8-sig': (codecs.BOM_UTF8,),
     'utf-16': (codecs.BOM_UTF16_BE, codecs.BOM_UTF16_LE),
     'utf-16-le': (codecs.BOM_UTF16_LE,),
     'utf-16-be': (codecs.BOM_UTF16_BE,),
@@ -185,6 +189,14 @@ def strip_bom(data, encoding):
         bytes:
         The string, without any BOM markers.
     """
+    try:
+        # Normalize the encoding name, so that aliases and alternate
+        # spellings (such as "UTF-16", "utf_16", or "u16") are handled the
+        # same way.
+        encoding = codecs.lookup(encoding).name
+    except (LookupError, TypeError):
+        pass
+
     boms = BOMS.get(encoding)
 
     if boms and data.startswith(boms):
